@@ -1,6 +1,173 @@
 /-
-  Property C05 — property theorems only (helper lemmas live next to the model).
-  Stub: nothing claimed yet.
+  Property C05 — anyflow: a run equals sequential evaluation; each vertex runs at most once; the
+  closure finishes; reset re-initialises.  Property theorems only (helper lemmas live next to the
+  models in Babylon/Anyflow/).
+
+  L1  `Babylon.Anyflow.Dep`    ONE `GraphDependency` at atomic granularity (counter `_waiting_num`,
+      three actors A / C b / T whose atomic sub-steps interleave freely, each actor may or may not
+      occur).  Finite state space ⇒ `dep_protocol_exhaustive` is a certified closed set evaluated by
+      the kernel (283 reachable states).
+  L2  `Babylon.Anyflow.Graph`  arbitrary finite DAG; dependencies replaced by the specification
+      proved in L1; vertex / data / closure mechanisms concrete; invariants over every schedule.
 -/
+import Babylon.Anyflow.DepLemmas
+import Babylon.Anyflow.GraphLemmas
+
 namespace Babylon.Properties.C05
+open Babylon.Core Babylon.Anyflow Babylon.Gen.Anyflow
+
+/-! ## generated obligations (the source still is what the models were written against) -/
+
+/-- `+1` without / `+2` with a condition; every `ready` decrements by one; terminal values. -/
+theorem gen_dep_constants :
+    incNoCond = 1 ∧ incCond = 2 ∧ readyDec = 1 ∧ readyDec2 = 1 ∧ readyActivateTargetAt = 1 ∧
+    readySecondSubUnless = 0 ∧ readyNotifyAt = 0 ∧ checkEstablishedShape = 1 := by decide
+
+/-- the `switch` of `GraphDependency::activate` has exactly the cases -1, 0, 1, 2 and the first two
+report "finished at activation" (`return 1`). -/
+theorem gen_dep_cases : activateCases = [-1, 0, 1, 2] ∧ activateFinishCases = [-1, 0] := by decide
+
+theorem gen_skel_dep :
+    skel_dep_activate = Dep.Skel.activate ∧ skel_dep_ready = Dep.Skel.ready ∧
+    skel_activate_case_m1 = [] ∧ skel_activate_case_0 = Dep.Skel.case0 ∧
+    skel_activate_case_1 = Dep.Skel.case1 ∧ skel_activate_case_2 = Dep.Skel.case2 ∧
+    skel_activate_case_default = [] ∧ skel_dep_reset = [.store "_waiting_num" .rlx] := by decide
+
+theorem gen_vertex_constants :
+    vertexReadyDec = 1 ∧ vertexReadyOldAt = 1 ∧ vertexBatchRunnableAt = 0 ∧
+    closureInitVertexNum = 1 ∧ closureInitDataNum = 1 ∧ sealedClosure = 2 ^ 64 - 1 := by decide
+
+theorem gen_skel_vertex :
+    skel_vertex_activate = Graph.Skel.vertexActivate ∧ skel_vertex_ready = Graph.Skel.vertexReady ∧
+    skel_vertex_reset = Graph.Skel.vertexReset ∧ skel_vertex_invoke = Graph.Skel.vertexInvoke ∧
+    skel_vertex_flush_emits = Graph.Skel.flushEmits ∧ skel_vertex_closure_done = Graph.Skel.closureDone ∧
+    skel_vertex_run = Graph.Skel.vertexRun := by decide
+
+theorem gen_skel_data :
+    skel_data_release = Dep.Skel.release ∧ skel_data_ready = Graph.Skel.dataReady ∧
+    skel_data_reset = Graph.Skel.dataReset ∧ skel_data_bind = Graph.Skel.dataBind ∧
+    skel_data_acquire = Graph.Skel.dataAcquire ∧ skel_data_trigger = Graph.Skel.dataTrigger ∧
+    skel_data_recursive_activate = Graph.Skel.recursiveActivate := by decide
+
+theorem gen_skel_closure :
+    skel_closure_mark_finished = Graph.Skel.markFinished ∧
+    skel_closure_depend_vertex_add = Graph.Skel.vertexAdd ∧ skel_closure_depend_vertex_sub = Graph.Skel.vertexSub ∧
+    skel_closure_depend_data_add = Graph.Skel.dataAdd ∧ skel_closure_depend_data_sub = Graph.Skel.dataSub ∧
+    skel_closure_fire = Graph.Skel.fire ∧ skel_closure_finish = Graph.Skel.finish := by decide
+
+theorem gen_skel_graph :
+    skel_graph_run = Graph.Skel.graphRun ∧ skel_graph_reset = Graph.Skel.graphReset ∧
+    skel_inplace_run = Graph.Skel.inplaceRun ∧ skel_pool_run = Graph.Skel.poolRun := by decide
+
+/-! ## L1 — the dependency counter protocol -/
+
+/-- **dep_protocol_exhaustive.**  For every interleaving of the atomic sub-steps of `A` (activate),
+`C b` (condition ready with value `b`) and `T` (target ready), every subset of these actors, with or
+without a condition, and any number of spurious weak-CAS failures:
+* the counter stays in `[-3, 2]` and the `default:` branch of the switch is never taken; the
+  condition's value is never read before the condition is sealed;
+* `notifySource` (`_source->ready(this)`) and `finishedAtActivate` (`activate` returns 1) happen at
+  most once *together* — never both, never twice — and only after `A`'s `fetch_add`, when the
+  condition is ready and (the dependency is not established or the target is ready); without `A`
+  neither happens; the vertex counter is decremented exactly that often and never below 0;
+* once the source has been told, `_ready` is final: ready ⇔ established (and then the target is ready);
+* `_target->trigger` / `recursive_activate(target)` happen at most once together, only after `A`
+  and only if established; the condition is triggered at most once, only after `A`;
+* the source vertex is made runnable / invoked at most once, never before it was told;
+* nothing is lost: when every actor that started has finished and the dependency is resolvable
+  (`A` done, `C` done or absent condition, `T` done or not established) the source has been told
+  exactly once and has run; an unresolved activated dependency has demanded what it waits for. -/
+theorem dep_protocol_exhaustive (s : Dep.State) (h : Reachable (· ∈ Dep.inits) Dep.Step s) :
+    (-3 ≤ s.cntI ∧ s.cntI ≤ 2) ∧ s.bad = false ∧ 0 ≤ s.vwnI ∧ s.vwnI = 1 - (s.notified + s.finA : Nat) ∧
+    s.notified + s.finA ≤ 1 ∧
+    (s.notified + s.finA = 1 → s.a ≠ .idle ∧ s.condOK = true ∧ (s.estTrue = false ∨ s.tgtSealed = true)) ∧
+    (s.a = .idle → s.notified = 0 ∧ s.finA = 0) ∧
+    (s.notified + s.finA = 1 → s.rdy = s.estTrue) ∧ (s.rdy = true → s.est = true ∧ s.tgtSealed = true) ∧
+    s.trigT + s.actT ≤ 1 ∧ (s.trigT + s.actT = 1 → s.a ≠ .idle ∧ s.estTrue = true ∧ s.condOK = true) ∧
+    s.trigC ≤ 1 ∧ (s.trigC = 1 → s.a ≠ .idle ∧ s.cfg.hasCond = true) ∧
+    s.runnable ≤ 1 ∧ s.invoked ≤ s.runnable ∧ s.runnable ≤ s.notified + s.finA ∧
+    (s.a = .done → (s.c = .idle ∨ s.c = .done) → (s.t = .idle ∨ s.t = .done) →
+      (s.cfg.hasCond = true → s.c = .idle → s.trigC = 1) ∧
+      ((s.cfg.hasCond = false ∨ s.c = .done) → s.estTrue = true → s.t = .idle → s.trigT + s.actT = 1) ∧
+      ((s.cfg.hasCond = false ∨ s.c = .done) → (s.estTrue = false ∨ s.t = .done) →
+         s.notified + s.finA = 1 ∧ s.invoked = 1)) :=
+  Dep.good_spec s (Dep.reachable_good s h)
+
+/-- not vacuous: the schedule "T, then C (condition false), then A" drives the counter to -3 and
+then to the terminal value -1 of the activation, which reports the dependency finished. -/
+example : ∃ s, Reachable (· ∈ Dep.inits) Dep.Step s ∧ s.finA = 1 ∧ s.cntI = -1 ∧ s.invoked = 1 :=
+  ⟨_, Dep.witness_reachable, by decide⟩
+
+/-- not vacuous: "A, then C (condition true) activating the target, then T" tells the source from `ready()`. -/
+example : ∃ s, Reachable (· ∈ Dep.inits) Dep.Step s ∧ s.notified = 1 ∧ s.actT = 1 ∧ s.rdy = true ∧ s.invoked = 1 :=
+  ⟨_, Dep.witness2_reachable, by decide⟩
+
+/-! ## L2 — whole graphs -/
+
+open Babylon.Anyflow.Graph in
+/-- **vertex_invoke_once** (every graph, every dependency count `n`, every schedule).  With each
+activated dependency contributing its one decrement only when resolvable (L1), the vertex counter
+equals `n - counted`, exactly one decrement observes it reach 0, so the vertex is put on a runnable
+stack at most once and its processor is entered at most once per run — and only when every one of
+its dependencies is activated and resolvable (condition evaluated, target ready if the condition
+holds).  The activation body runs at most once (`activate` needs `vact v = false`). -/
+theorem vertex_invoke_once (p : Params) (s : State) (h : Reachable (· = State.init) (Step p) s) (v : Nat) :
+    s.runnable v ≤ 1 ∧ s.started v ≤ s.runnable v ∧
+    (s.vact v = true → s.wn v = (p.g.nDeps v : Int) - (s.counted v : Int)) ∧
+    (s.runnable v = 1 → s.vact v = true ∧ s.counted v = p.g.nDeps v ∧
+       ∀ d ∈ (p.g.vert v).deps, resolvable s d = true) ∧
+    (∀ s', stepEvent p s (.activate v) = some s' → s.vact v = false ∧ s'.vact v = true) :=
+  Graph.vertex_invoke_once p s h v
+
+open Babylon.Anyflow.Graph in
+/-- **data_publish_once.**  A data node is sealed at most once per run, and from then on its value
+never changes (until `reset`). -/
+theorem data_publish_once (p : Params) (s : State) (h : Reachable (· = State.init) (Step p) s) (d : Nat) :
+    s.seals d ≤ 1 ∧ (s.sealed d = true ↔ s.seals d = 1) ∧
+    (∀ e s', stepEvent p s e = some s' → s.sealed d = true →
+       s' = State.init ∨ (s'.sealed d = true ∧ s'.val d = s.val d)) :=
+  Graph.data_publish_once p s h d
+
+open Babylon.Anyflow.Graph in
+/-- **closure_finish_flush.**  The closure is finished by the first successful `mark_finished` and its
+code never changes; as long as no emitter unknown to the closure seals data after `run` (`lateEnv`),
+the vertex count is `1 (until fire) + open vertex closures`, the flush is signalled at most once and
+only when the count has returned to 0, i.e. after `fire` and after every started vertex closure is
+done — no processor is running then and none starts afterwards. -/
+theorem closure_finish_flush (p : Params) (s : State) (h : Reachable (· = State.init) (Step p) s) :
+    (∀ e s' c, stepEvent p s e = some s' → s.fin = some c → s' = State.init ∨ s'.fin = some c) ∧
+    (s.lateEnv = false →
+      s.wvn = (if s.firedV then 0 else 1) + s.opened ∧ s.procs ≤ s.opened ∧ s.flushed ≤ 1 ∧
+      (s.flushed = 1 → s.firedV = true ∧ s.wvn = 0 ∧ s.opened = 0 ∧ s.procs = 0) ∧
+      (s.flushed = 1 → ∀ v ins, stepEvent p s (.procStart v ins) = none)) :=
+  Graph.closure_finish_flush p s h
+
+open Babylon.Anyflow.Graph in
+/-- **graph_safety** (every well-formed DAG, every schedule).  While the closure is not finished, a
+vertex is activated — hence run — only if the targets need it: some emit of it that the environment
+does not provide is demanded by the targets through established dependencies, where "established"
+is judged by the *sequential* semantics `evalSeq`. -/
+theorem graph_safety (p : Params) (hwf : WF p) (s : State) (h : Reachable (· = State.init) (Step p) s)
+    (hfin : s.fin = none) (v : Nat) :
+    (s.vact v = true → VNeeded p v) ∧ (s.started v ≥ 1 → VNeeded p v) :=
+  Graph.graph_safety p hwf s h hfin v
+
+open Babylon.Anyflow.Graph in
+/-- **graph_eq_sequential** (every well-formed DAG, every input, every target set, every schedule).
+If the run finishes successfully (code 0) every target is ready and holds the value the sequential
+evaluation `evalSeq` of the same graph gives; more generally, until the closure finishes every
+sealed data holds its `evalSeq` value. -/
+theorem graph_eq_sequential (p : Params) (hwf : WF p) (s : State) (h : Reachable (· = State.init) (Step p) s) :
+    (s.fin = none → ∀ d, s.sealed d = true → s.val d = evalSeq p d) ∧
+    (s.fin = some 0 → ∀ t ∈ p.targets, s.sealed t = true ∧ s.val t = evalSeq p t) :=
+  Graph.graph_eq_sequential p hwf s h
+
+open Babylon.Anyflow.Graph in
+/-- **reset_reinit.**  `reset` is accepted only when the run is completely over (fired, vertex count
+0) and maps any such state to the initial state, from which all theorems above apply again (they are
+invariants of `Reachable`, which includes `reset` steps). -/
+theorem reset_reinit (p : Params) (s s' : State) (h : stepEvent p s .reset = some s') :
+    s' = State.init ∧ s.running = true ∧ s.firedV = true ∧ s.wvn = 0 :=
+  Graph.reset_reinit p s s' h
+
 end Babylon.Properties.C05
